@@ -159,3 +159,39 @@ reg("C11", "E1 product sweep",
     "key or value differently both are admitted (disjoint per value).",
     "Trusted: names tables typed in from FIRST's schemas (vf/ref/names.py), the model's parse.",
     "DESIGN.md section 3, C11")
+
+reg("C13", "E3 token-sequence enumeration",
+    "explicit enumeration of all texts that are concatenations of <=3 (quick) / <=4 (thorough) "
+    "tokens of a 34-token alphabet, plus all single-character edits of ten texts, through the real "
+    "parse_cvss_from_text; oracle = brute-force scan of all delimited substrings with the "
+    "independent recogniser",
+    "40k (quick) / 1.4M (thorough) token texts + ~40k edited texts: totality, soundness (every "
+    "returned object's vector is a substring accepted by the model for the object's class), "
+    "completeness for delimited v2/v3 vectors, duplicate-freedom, repeatability. Bounded by token "
+    "alphabet and sequence length (the property quantifies over all texts).",
+    "Trusted: the grammar tables; the token alphabet as a representative of 'arbitrary text'.",
+    "DESIGN.md section 3, C13")
+
+reg("C16", "E3 answer-script exploration (deviation-bounded)",
+    "exhaustive enumeration of all answer scripts with <=d deviations from the default script, run "
+    "through the real ask_interactively via the real input() path; oracle = dialogue model (trace "
+    "inclusion)",
+    "All versions x {mandatory, all} x {colours}: every legal value of every metric in four letter "
+    "cases, empty / invalid-then-valid / blank-padded answers and end of input at every question; "
+    "d=1 for all-metrics and d=2 for mandatory-only (quick, 104k dialogues), d=2 everywhere and d=3 "
+    "for v2 mandatory (thorough). Question order is not presupposed (reactive stdin keyed by "
+    "metric).",
+    "Trusted: prompts are attributable to metrics by keywords of the specification's metric names.",
+    "DESIGN.md section 3, C16")
+
+reg("C17", "E3 command-line enumeration",
+    "exhaustive enumeration of flag sets x vector alphabet x option forms and of interactive "
+    "sessions (every EOF point) through the real main(), in process and as real subprocesses; "
+    "oracle = CLI model over the library's own API view",
+    "64 flag sets x 47 vectors (valid and invalid for each version) x {-v V, --vector=V}; "
+    "interactive: complete script, end of input after every prefix, invalid and lower-case answer "
+    "at each question for every single-version flag set; 136-450 real subprocess runs for exit "
+    "status and stderr.",
+    "Trusted: 'exactly as the library API reports them' is checked against the same tree's API "
+    "(C01-C12 decide the API itself). Several version flags: any one is admitted.",
+    "DESIGN.md section 3, C17")
